@@ -1931,3 +1931,219 @@ func isProperExprLS(p *Prog, v ssa.Value, versionTest func(*ssa.If) (bool, bool,
 	}
 	return false
 }
+
+// ---------------------------------------------------------------------------
+// REC/gc-terminates (C15, C02): the collector's walks over the reference graph
+// end on every graph, cycles included.
+//   - traverse descends into the references only when the visitor did not answer
+//     "stop";
+//   - the count-down visitor answers "stop" for a node it has seen (the lookup in
+//     its record map found it) and records every node it has not;
+//   - the mark visitor answers "stop" for a node already marked kept or unsend;
+//     a node marked for deletion is visited again only to be upgraded to kept —
+//     decided by constant propagation over the five mark values.
+// A walk that goes round a cycle for ever overflows the stack of the connection
+// worker: fatal for the whole gateway.
+
+func ruleGCTerminates(c *Ctx) {
+	p := c.P
+	fn := p.Fn("(*server.wsConn).tryDelete")
+	travFn := p.Fn("(*server.Subscription).traverse")
+	trav := p.Method("server.Subscription.traverse")
+	gcT := p.Named("server.gcState")
+	kStop := p.ConstInt("server.gcStateStop", -1)
+	kNone, kDelete, kKeep, kUnsend := p.ConstInt("server.gcStateNone", -1), p.ConstInt("server.gcStateDelete", -1), p.ConstInt("server.gcStateKeep", -1), p.ConstInt("server.gcStateUnsend", -1)
+	if fn == nil || travFn == nil || trav == nil || gcT == nil || kStop < 0 || kNone < 0 || kKeep < 0 {
+		c.undecided("(*server.wsConn).tryDelete", "anchor", "-", "not found")
+		return
+	}
+	// 1. traverse
+	{
+		c.inst(1)
+		sp := &Spec{}
+		sp.Classify = func(t *Tracer, fr *Frame, in ssa.Instruction) []Ev {
+			if _, ok := isCallTo(in, trav); ok {
+				return []Ev{{Kind: "descend", Stop: true}}
+			}
+			return nil
+		}
+		sp.Branch = func(t *Tracer, fr *Frame, i *ssa.If, dir bool) []Ev {
+			x, op, k, ok := cmpConst(i.Cond)
+			if !ok || k != kStop || !types.Identical(x.Type(), gcT) {
+				return nil
+			}
+			// the value compared must be the visitor's answer (a call result), not the incoming state
+			if _, isCall := t.Resolve(fr, x).V.(*ssa.Call); !isCall {
+				return nil
+			}
+			if (op == token.EQL) == dir {
+				return []Ev{{Kind: "answer=stop"}}
+			}
+			return []Ev{{Kind: "answer!=stop"}}
+		}
+		tr := runTrace(p, travFn, sp)
+		bad := ""
+		nDesc := 0
+		for _, path := range tr.Paths {
+			if hasKind(path, "descend") {
+				nDesc++
+				if !hasKind(path, "answer!=stop") {
+					bad = "traverse descends into the references on a path that has not established that the visitor did not answer stop: a revisited node is walked again, on a reference cycle for ever (stack overflow ends the gateway): " + tr.FmtPath(path)
+				}
+			}
+		}
+		if nDesc == 0 {
+			bad = "no descending path"
+		}
+		c.check(bad == "" && !tr.Trunc, fnName(travFn), "the walk descends only where the visitor did not answer stop", p.Pos(travFn.Pos()), fmt.Sprintf("%d descending paths", nDesc), bad)
+	}
+	// visitors of tryDelete
+	var visitors []*ssa.Function
+	for _, g := range p.withHelpers(fn) {
+		for _, call := range callsIn(g) {
+			if _, ok := isCallTo(call, trav); ok {
+				args := callArgs(call.Common())
+				if mc, ok := stripConv(args[len(args)-1]).(*ssa.MakeClosure); ok {
+					vf := mc.Fn.(*ssa.Function)
+					if vf.Synthetic != "" {
+						if m := boundMethod(vf); m != nil {
+							if mf := p.SSA.FuncValue(m); mf != nil && len(mf.Blocks) > 0 {
+								vf = mf
+							}
+						}
+					}
+					visitors = append(visitors, vf)
+				}
+			}
+		}
+	}
+	isMark := func(f *types.Var) bool { return f != nil && types.Identical(f.Type(), gcT) }
+	for _, v := range visitors {
+		marks := false
+		for _, g := range p.withHelpers(v) {
+			for _, in := range instrsOf(g) {
+				if st, ok := in.(*ssa.Store); ok {
+					if fa, ok := st.Addr.(*ssa.FieldAddr); ok && isMark(fieldOfAddr(fa)) {
+						if k, isC := constInt(st.Val); isC && k == kKeep {
+							marks = true
+						}
+					}
+				}
+			}
+		}
+		retEv := func(t *Tracer, fr *Frame, in ssa.Instruction) []Ev {
+			if r, ok := in.(*ssa.Return); ok && fr == t.RootFr && len(r.Results) == 1 {
+				if k, isC := constInt(t.Resolve(fr, r.Results[0]).V); isC && k == kStop {
+					return []Ev{{Kind: "answer:stop"}}
+				}
+				return []Ev{{Kind: "answer:go-on"}}
+			}
+			return nil
+		}
+		if !marks {
+			// the count-down visitor
+			c.inst(1)
+			sp := &Spec{InlineHelpers: true}
+			sp.Classify = func(t *Tracer, fr *Frame, in ssa.Instruction) []Ev {
+				if _, ok := in.(*ssa.MapUpdate); ok {
+					return []Ev{{Kind: "record"}}
+				}
+				return retEv(t, fr, in)
+			}
+			sp.Branch = func(t *Tracer, fr *Frame, i *ssa.If, dir bool) []Ev {
+				v2 := i.Cond
+				neg := false
+				if u, ok := v2.(*ssa.UnOp); ok && u.Op == token.NOT {
+					v2, neg = u.X, true
+				}
+				if ex, ok := t.Resolve(fr, v2).V.(*ssa.Extract); ok && ex.Index == 1 {
+					if _, isLk := ex.Tuple.(*ssa.Lookup); isLk {
+						if dir != neg {
+							return []Ev{{Kind: "seen-before"}}
+						}
+						return []Ev{{Kind: "first-visit"}}
+					}
+				}
+				if x, nn, ok := nilTest(i, dir); ok {
+					if _, isLk := t.Resolve(fr, x).V.(*ssa.Lookup); isLk {
+						if nn {
+							return []Ev{{Kind: "seen-before"}}
+						}
+						return []Ev{{Kind: "first-visit"}}
+					}
+				}
+				return nil
+			}
+			tr := runTrace(p, v, sp)
+			bad := ""
+			nSeen := 0
+			for _, path := range tr.Paths {
+				if hasKind(path, "seen-before") {
+					nSeen++
+					if !hasKind(path, "answer:stop") {
+						bad = "the count-down visitor does not answer stop for a node it has already seen: " + tr.FmtPath(path)
+					}
+				}
+				if hasKind(path, "first-visit") && hasKind(path, "answer:go-on") && !hasKind(path, "record") {
+					bad = "the count-down visitor goes on from a node it has not recorded: " + tr.FmtPath(path)
+				}
+				if hasKind(path, "answer:go-on") && !hasKind(path, "first-visit") && !hasKind(path, "seen-before") && len(path) > 1 {
+					// going on without consulting the record (other than for the root, which has its own test)
+				}
+			}
+			if nSeen == 0 {
+				bad = "no path of the count-down visitor recognises a node it has seen before: on a reference cycle the walk never ends"
+			}
+			c.check(bad == "" && !tr.Trunc, fnName(v), "the count-down walk stops at a node it has seen and records every node it has not", p.Pos(v.Pos()), fmt.Sprintf("%d paths, %d for a seen node", len(tr.Paths), nSeen), bad)
+			continue
+		}
+		// the mark visitor: constant propagation over the node's mark
+		c.inst(1)
+		bad := ""
+		for _, k := range []int64{kNone, kDelete, kKeep, kUnsend} {
+			kk := k
+			sp := &Spec{InlineHelpers: true}
+			sp.Eval = func(t *Tracer, fr *Frame, cond ssa.Value) (bool, bool) {
+				x, op, c2, ok := cmpConst(cond)
+				if !ok {
+					return false, false
+				}
+				if f, _ := fieldLoad(t.Resolve(fr, x).V); !isMark(f) {
+					return false, false
+				}
+				return evalIntCmp(op, kk, c2)
+			}
+			sp.Classify = func(t *Tracer, fr *Frame, in ssa.Instruction) []Ev {
+				if st, ok := in.(*ssa.Store); ok {
+					if fa, ok := st.Addr.(*ssa.FieldAddr); ok && isMark(fieldOfAddr(fa)) {
+						if c2, isC := constInt(t.Resolve(fr, st.Val).V); isC {
+							return []Ev{{Kind: fmt.Sprintf("mark=%d", c2)}}
+						}
+					}
+				}
+				return retEv(t, fr, in)
+			}
+			tr := runTrace(p, v, sp)
+			for _, path := range tr.Paths {
+				if !hasKind(path, "answer:go-on") {
+					continue
+				}
+				switch kk {
+				case kKeep, kUnsend:
+					bad = fmt.Sprintf("the mark walk goes on from a node already marked %d (kept / unsend): on a reference cycle of kept nodes it never ends: %s", kk, tr.FmtPath(path))
+				case kDelete:
+					if !hasKind(path, fmt.Sprintf("mark=%d", kKeep)) && !hasKind(path, fmt.Sprintf("mark=%d", kUnsend)) {
+						bad = "the mark walk goes on from a node already marked for deletion without upgrading it: on a cycle of such nodes it never ends: " + tr.FmtPath(path)
+					}
+				}
+			}
+			if tr.Trunc {
+				bad = "path budget exhausted"
+			}
+		}
+		c.check(bad == "", fnName(v), "the mark walk stops at a node already kept, and revisits a node marked for deletion only to upgrade it", p.Pos(v.Pos()), "four mark values evaluated by constant propagation", bad)
+	}
+	if len(visitors) < 2 {
+		c.viol(fnName(fn), "the collector's walks end on every graph", "-", "visitors not found")
+	}
+}
